@@ -177,7 +177,7 @@ Definition twin_ops (k : mkind) (f : oform) (wr : bool) (vs : vset) : list op :=
   let val := mkOpts (vs_ns vs) (vs_sub vs) (vs_name vs) (vs_help vs) (amap_of (vs_ocon vs)) [] in
   let o := match f with FV => val | _ => plain end in
   let h := match f with
-           | FHN => mkHOpts plain []              (* HistogramOpts::new: the default buckets (an empty list selects them) *)
+           | FHN => mkHOpts plain DEFAULT_BUCKETS  (* HistogramOpts::new *)
            | FHB => mkHOpts plain (vs_buckets vs)
            | _ => mkHOpts val (vs_buckets vs)
            end in
@@ -200,11 +200,110 @@ Record armrun := mkRun {
   ar_vs : vset; ar_id : N; ar_macro : string; ar_arm : nat; ar_natoms : nat; ar_shape : armshape; ar_kind : armkind;
   ar_mac : list obs; ar_twin : list obs }.
 Definition run_vs (c : armrun) : vset := match ar_kind c with AValue => ar_vs c | AReg _ _ => arm_vs (ar_vs c) (ar_id c) end.
+(* what the model says the two sides of an arm run observe *)
+Definition model_mac (c : armrun) : list obs := model_macro (run_vs c) (ar_macro c) (ar_arm c) (ar_natoms c).
+Definition model_twin (c : armrun) : list obs :=
+  match ar_kind c, ar_shape c with
+  | AReg k f, ShReg wr _ => run world0 (twin_ops k f wr (run_vs c))
+  | _, _ => model_mac c
+  end.
+
+(* the arms harness/src/mac.rs exercises (tools/c20_arms.py): macro, arm index, number of argument atoms, shape, kind.
+   Every case of every run is checked to be in this table. *)
+Open Scope string_scope.
+Definition harness_table : list (string * nat * nat * armshape * armkind) :=
+  [(("register_counter", 1%nat, 1%nat), ShReg false false, AReg KCounter FV);
+   (("register_counter", 2%nat, 2%nat), ShReg false false, AReg KCounter FN);
+   (("register_counter_with_registry", 1%nat, 2%nat), ShReg true false, AReg KCounter FV);
+   (("register_counter_with_registry", 2%nat, 3%nat), ShReg true false, AReg KCounter FN);
+   (("register_int_counter", 0%nat, 1%nat), ShReg false false, AReg KIntCounter FV);
+   (("register_int_counter", 1%nat, 2%nat), ShReg false false, AReg KIntCounter FN);
+   (("register_int_counter_with_registry", 0%nat, 2%nat), ShReg true false, AReg KIntCounter FV);
+   (("register_int_counter_with_registry", 1%nat, 3%nat), ShReg true false, AReg KIntCounter FN);
+   (("register_gauge", 0%nat, 1%nat), ShReg false false, AReg KGauge FV);
+   (("register_gauge", 1%nat, 2%nat), ShReg false false, AReg KGauge FN);
+   (("register_gauge_with_registry", 0%nat, 2%nat), ShReg true false, AReg KGauge FV);
+   (("register_gauge_with_registry", 1%nat, 3%nat), ShReg true false, AReg KGauge FN);
+   (("register_int_gauge", 0%nat, 1%nat), ShReg false false, AReg KIntGauge FV);
+   (("register_int_gauge", 1%nat, 2%nat), ShReg false false, AReg KIntGauge FN);
+   (("register_int_gauge_with_registry", 0%nat, 2%nat), ShReg true false, AReg KIntGauge FV);
+   (("register_int_gauge_with_registry", 1%nat, 3%nat), ShReg true false, AReg KIntGauge FN);
+   (("register_counter_vec", 0%nat, 2%nat), ShReg false true, AReg KCounterVec FV);
+   (("register_counter_vec", 1%nat, 3%nat), ShReg false true, AReg KCounterVec FN);
+   (("register_counter_vec_with_registry", 0%nat, 3%nat), ShReg true true, AReg KCounterVec FV);
+   (("register_counter_vec_with_registry", 1%nat, 4%nat), ShReg true true, AReg KCounterVec FN);
+   (("register_int_counter_vec", 0%nat, 2%nat), ShReg false true, AReg KIntCounterVec FV);
+   (("register_int_counter_vec", 1%nat, 3%nat), ShReg false true, AReg KIntCounterVec FN);
+   (("register_int_counter_vec_with_registry", 0%nat, 3%nat), ShReg true true, AReg KIntCounterVec FV);
+   (("register_int_counter_vec_with_registry", 1%nat, 4%nat), ShReg true true, AReg KIntCounterVec FN);
+   (("register_gauge_vec", 0%nat, 2%nat), ShReg false true, AReg KGaugeVec FV);
+   (("register_gauge_vec", 1%nat, 3%nat), ShReg false true, AReg KGaugeVec FN);
+   (("register_gauge_vec_with_registry", 0%nat, 3%nat), ShReg true true, AReg KGaugeVec FV);
+   (("register_gauge_vec_with_registry", 1%nat, 4%nat), ShReg true true, AReg KGaugeVec FN);
+   (("register_int_gauge_vec", 0%nat, 2%nat), ShReg false true, AReg KIntGaugeVec FV);
+   (("register_int_gauge_vec", 1%nat, 3%nat), ShReg false true, AReg KIntGaugeVec FN);
+   (("register_int_gauge_vec_with_registry", 0%nat, 3%nat), ShReg true true, AReg KIntGaugeVec FV);
+   (("register_int_gauge_vec_with_registry", 1%nat, 4%nat), ShReg true true, AReg KIntGaugeVec FN);
+   (("register_histogram", 0%nat, 2%nat), ShReg false false, AReg KHistogram FHN);
+   (("register_histogram", 1%nat, 3%nat), ShReg false false, AReg KHistogram FHB);
+   (("register_histogram", 2%nat, 1%nat), ShReg false false, AReg KHistogram FHV);
+   (("register_histogram_with_registry", 0%nat, 3%nat), ShReg true false, AReg KHistogram FHN);
+   (("register_histogram_with_registry", 1%nat, 4%nat), ShReg true false, AReg KHistogram FHB);
+   (("register_histogram_with_registry", 2%nat, 2%nat), ShReg true false, AReg KHistogram FHV);
+   (("register_histogram_vec", 0%nat, 2%nat), ShReg false true, AReg KHistogramVec FHV);
+   (("register_histogram_vec", 1%nat, 3%nat), ShReg false true, AReg KHistogramVec FHN);
+   (("register_histogram_vec", 2%nat, 4%nat), ShReg false true, AReg KHistogramVec FHB);
+   (("register_histogram_vec_with_registry", 0%nat, 3%nat), ShReg true true, AReg KHistogramVec FHV);
+   (("register_histogram_vec_with_registry", 1%nat, 4%nat), ShReg true true, AReg KHistogramVec FHN);
+   (("register_histogram_vec_with_registry", 2%nat, 5%nat), ShReg true true, AReg KHistogramVec FHB);
+   (("labels", 0%nat, 0%nat), ShValue, AValue);
+   (("labels", 0%nat, 2%nat), ShValue, AValue);
+   (("labels", 0%nat, 4%nat), ShValue, AValue);
+   (("labels", 0%nat, 6%nat), ShValue, AValue);
+   (("opts", 0%nat, 2%nat), ShValue, AValue);
+   (("opts", 0%nat, 3%nat), ShValue, AValue);
+   (("opts", 0%nat, 4%nat), ShValue, AValue);
+   (("opts", 0%nat, 5%nat), ShValue, AValue);
+   (("histogram_opts", 0%nat, 2%nat), ShValue, AValue);
+   (("histogram_opts", 1%nat, 3%nat), ShValue, AValue);
+   (("histogram_opts", 2%nat, 4%nat), ShValue, AValue)]%list.
+Open Scope N_scope.
+Definition shape_eqb (a b : armshape) : bool :=
+  match a, b with
+  | ShValue, ShValue => true
+  | ShReg w v, ShReg w' v' => Bool.eqb w w' && Bool.eqb v v'
+  | _, _ => false
+  end.
+Definition mkind_eqb (a b : mkind) : bool :=
+  match a, b with
+  | KCounter, KCounter | KIntCounter, KIntCounter | KGauge, KGauge | KIntGauge, KIntGauge | KHistogram, KHistogram
+  | KCounterVec, KCounterVec | KIntCounterVec, KIntCounterVec | KGaugeVec, KGaugeVec | KIntGaugeVec, KIntGaugeVec
+  | KHistogramVec, KHistogramVec => true
+  | _, _ => false
+  end.
+Definition oform_eqb (a b : oform) : bool :=
+  match a, b with FN, FN | FV, FV | FHN, FHN | FHB, FHB | FHV, FHV => true | _, _ => false end.
+Definition armkind_eqb (a b : armkind) : bool :=
+  match a, b with
+  | AValue, AValue => true
+  | AReg k f, AReg k' f' => mkind_eqb k k' && oform_eqb f f'
+  | _, _ => false
+  end.
+Definition arm_in_table (c : armrun) : bool :=
+  existsb (fun e : string * nat * nat * armshape * armkind =>
+             let '(m, a, n, sh, k) := e in
+             String.eqb m (ar_macro c) && Nat.eqb a (ar_arm c) && Nat.eqb n (ar_natoms c) && shape_eqb sh (ar_shape c)
+             && armkind_eqb k (ar_kind c)) harness_table.
+
+(* the side condition of the harness: the custom registry of the value set is accepted by Registry::new_custom
+   (a valid prefix, valid common label names, no common label le) *)
+Definition vs_in_domain (vs : vset) : bool :=
+  match @reg_new_custom collector (vs_prefix vs) (match vs_rlabels vs with Some l => Some (amap_of l) | None => None end) with
+  | Ok _ => true
+  | Err _ => false
+  end.
+
 Definition chk_model (c : armrun) : bool :=
-  let vs := run_vs c in
-  obs_list_eqb (model_macro vs (ar_macro c) (ar_arm c) (ar_natoms c)) (ar_mac c)
-  && match ar_kind c, ar_shape c with
-     | AReg k f, ShReg wr _ => obs_list_eqb (run world0 (twin_ops k f wr vs)) (ar_twin c)
-     | _, _ => obs_list_eqb (model_macro vs (ar_macro c) (ar_arm c) (ar_natoms c)) (ar_twin c)
-     end.
+  arm_in_table c && vs_in_domain (ar_vs c)
+  && obs_list_eqb (model_mac c) (ar_mac c) && obs_list_eqb (model_twin c) (ar_twin c).
 Definition chk_spec (c : armrun) : bool := spec_c20 (ar_shape c) (ar_mac c) (ar_twin c).
